@@ -23,6 +23,10 @@ var polluters = []struct{ name, src string }{
 	{"bindings-delete", `delete _.bindings.x; delete _.bindings.a; return {};`},
 	{"bindings-push", `_.bindings.l.push(9); _.bindings.l[0] = "changed"; return null;`},
 	{"bindings-deep", `_.bindings.d.e.f.push({g: 1}); _.bindings.d.e = 5; return _.bindings;`},
+	{"bindings-array-of-objects", `_.bindings.items[0].qty = 99; _.bindings.items[1].tags.push("x"); return null;`},
+	{"bindings-array-of-arrays", `_.bindings.grid[0].push(9); _.bindings.grid[1][0] = "changed"; return _.bindings;`},
+	{"bindings-array-replace-element", `_.bindings.items[0] = {qty: -1}; _.bindings.grid[0] = []; throw new Error("after mutation");`},
+	{"props-array-of-objects", `_.props.items[0].qty = 99; _.props.grid[0].push(9); return _.bindings;`},
 	{"props-set", `_.props.n = 1000; _.props.added = true; return _.bindings;`},
 	{"props-nested-set", `_.props.a.b = 99; return _.bindings;`},
 	{"props-array", `_.props.l[0] = "changed"; _.props.l.push(7); return _.bindings;`},
@@ -106,12 +110,16 @@ func genIso(t *rapid.T) IsoCase {
 
 func inputBindings() match.Bindings {
 	return match.Bindings{"x": 1.0, "a": map[string]interface{}{"b": 1.0}, "l": []interface{}{1.0, 2.0},
-		"d": map[string]interface{}{"e": map[string]interface{}{"f": []interface{}{}}}}
+		"d":     map[string]interface{}{"e": map[string]interface{}{"f": []interface{}{}}},
+		"items": []interface{}{map[string]interface{}{"qty": 1.0}, map[string]interface{}{"qty": 2.0, "tags": []interface{}{"t"}}},
+		"grid":  []interface{}{[]interface{}{1.0, 2.0}, []interface{}{3.0}}}
 }
 
 func inputProps() core.StepProps {
 	return core.StepProps{"n": 5.0, "q": "s", "a": map[string]interface{}{"b": 1.0}, "l": []interface{}{1.0, 2.0},
-		"d": map[string]interface{}{"e": map[string]interface{}{"f": []interface{}{}}}}
+		"d":     map[string]interface{}{"e": map[string]interface{}{"f": []interface{}{}}},
+		"items": []interface{}{map[string]interface{}{"qty": 1.0}},
+		"grid":  []interface{}{[]interface{}{1.0, 2.0}, []interface{}{3.0}}}
 }
 
 var (
